@@ -1,2 +1,3 @@
 import Proofs.Lemmas.Checksum
+import Proofs.Props.Tables
 import Proofs.Props.C12
